@@ -94,15 +94,31 @@ class CallMixin:
             if is_const(name) and isinstance(name[1], str):
                 self.emit(s, fx, "GETATTR", n, obj=obj, name=name[1])
                 # the same as the attribute read obj.<name>; a default replaces the AttributeError of a name that does not resolve
+                caught = dflt is None and self._in_try_catching(n, fx, "AttributeError")
                 for r2, t2, s2 in self.get_attr(obj, name[1], s, fx, n):
                     if r2 == "raise" and dflt is not None and isinstance(t2, tuple) and t2[:2] == ("exc", "AttributeError"):
                         s2.events = [e for e in s2.events if not (e.kind == "UNRESOLVED" and e.node is n)]
                         yield "ok", dflt, s2
+                    elif r2 == "raise" and caught and isinstance(t2, tuple) and t2[:2] == ("exc", "AttributeError"):
+                        # getattr without a default inside try/except AttributeError: the miss is an expected outcome, handled there
+                        s2.events = [e for e in s2.events if not (e.kind == "UNRESOLVED" and e.node is n)]
+                        yield r2, t2, s2
                     else:
                         yield r2, t2, s2
             else:
                 raise AnalysisError("closed-world audit: getattr() with a name that is not constant at %s:%d (%s)" % (
                     fx.func.file, n.lineno, show(name)))
+
+    def _in_try_catching(self, node, fx, name):
+        """Is `node` lexically inside the body of a try of the current function with a handler for `name` (or a base of it, or bare)?"""
+        bases = {name, "Exception", "BaseException"} | ({"LookupError"} if name in ("KeyError", "IndexError") else set())
+        for t in ast.walk(fx.func.node):
+            if isinstance(t, ast.Try) and any(x is node for b in t.body for x in ast.walk(b)):
+                for h in t.handlers:
+                    ts = [] if h.type is None else (list(h.type.elts) if isinstance(h.type, ast.Tuple) else [h.type])
+                    if h.type is None or any((isinstance(x, ast.Name) and x.id in bases) or (isinstance(x, ast.Attribute) and x.attr in bases) for x in ts):
+                        return True
+        return False
 
     # ------------------------------------------------------------------
     def inline(self, func, selfterm, args, kw, st, fx, node, outer_env=None, bound=True):
@@ -702,6 +718,8 @@ class CallMixin:
         if name in ("append", "appendleft", "insert", "extend", "extendleft"):
             self.emit(st, fx, "REG", node, key=None, val=args[-1] if args else NONE, how=name, **common)
             self._drop_reg_facts(st, reg)
+            if name in ("append", "appendleft", "insert"):
+                st.facts[("truthy", recv)] = True      # it holds at least what was just put in
             yield "ok", NONE, st
         elif name in ("popleft", "pop", "popitem"):
             t = ("popped", reg, st.uid())
